@@ -2,7 +2,7 @@
 from composite import install
 TIE = "corr:pe"
 TIE_THEOREM = "Relic.Props.C01 (models Relic.Model.PE vs lib/authenticode)"
-UNPROVED = ['Relic.Props.C01.vsix_sign_then_verify_full_orig (code before the repair of FV1): false, witness vsix_uri_roundtrip_gap; for the repaired code vsix_sign_then_verify holds at full strength (sign succeeds => verify accepts; refusals characterised by vsix_sign_refuses_iff), with the XML-DSig layer, encoding/xml and digests as parameters (VsixSound)', 'Relic.Props.C01.macho_sign_then_verify_full (as stated): false in the model, witness not_macho_sign_then_verify_full (an LC_SYMTAB command, which the model of debug/macho does not cover: refutes the statement, not relic); the corrected end-to-end statement is proved for every Regular image: macho_sign_then_verify_end_to_end (Props/C01_MachOFull.lean = macho_sign_then_locate: scan / PatchSignature / patch application / load-command walk over the patched header / readSigBlob, + macho_verify_of_locate: superblob and code-directory round trips, special slots, VerifyPages); the two Regular hypotheses that excluded genuine defects are no longer assumed but derived from a successful Sign, which tests them since the repairs: noSlack (F-MACHO-4, bd2b0c4: regular_noSlack, macho_slack_refused; code before: macho_slack_breaks_orig) and small (F-MACHO-3, 5805b39: regular_small, macho_sign_refuses_oversize, macho_fresh_region_small; code before: macho_oversize_refused_orig); what remains is Regular.oldSmall: an EXISTING signature region above 10^7 bytes is reused without a size test (macho_reused_oversize_region_refused, listed as F-MACHO-3b; replay harness/cmd/machobig reuse)', 'Relic.Props.C01.appx_sign_then_verify_full (as stated, for arbitrary parts and some codec): false, witness not_appx_sign_then_verify_full (an empty manifest part, F7a); the statement with its real hypotheses (parts coherent with the codec, no ZIP64 extra on the regenerated parts: F-APPX-ZIP64, no *.appx member: F41, manifest not empty / block-map descriptor recognised: F7a) is proved with the same codec: appx_sign_then_verify_zip (Props/C01_AppxFull.lean, on the ZIP round trip C17.read_write_directory_own_output)']
+UNPROVED = ['Relic.Props.C01.vsix_sign_then_verify_full_orig (code before the repair of FV1): false, witness vsix_uri_roundtrip_gap; for the repaired code vsix_sign_then_verify holds at full strength (sign succeeds => verify accepts; refusals characterised by vsix_sign_refuses_iff), with the XML-DSig layer, encoding/xml and digests as parameters (VsixSound)', 'Relic.Props.C01.macho_sign_then_verify_full (as stated): false in the model, witness not_macho_sign_then_verify_full (an LC_SYMTAB command, which the model of debug/macho does not cover: refutes the statement, not relic); the corrected end-to-end statement is proved for every Regular image: macho_sign_then_verify_end_to_end (Props/C01_MachOFull.lean = macho_sign_then_locate: scan / PatchSignature / patch application / load-command walk over the patched header / readSigBlob, + macho_verify_of_locate: superblob and code-directory round trips, special slots, VerifyPages); the Regular hypotheses that excluded genuine defects are no longer assumed but derived from a successful Sign, which tests them since the repairs: noSlack (F-MACHO-4, bd2b0c4: regular_noSlack, macho_slack_refused; code before: macho_slack_breaks_orig) and small / oldSmall (F-MACHO-3, 5805b39 and F-MACHO-3b, e678460: regular_small = macho_region_small, macho_sign_refuses_oversize_region for both branches of PatchSignature; code before: macho_oversize_refused_orig, macho_reused_oversize_region_refused_orig); Regular is now RegularImage, no size hypothesis is left', 'Relic.Props.C01.appx_sign_then_verify_full (as stated, for arbitrary parts and some codec): false, witness not_appx_sign_then_verify_full (an empty manifest part, F7a); the statement with its real hypotheses (parts coherent with the codec, no ZIP64 extra on the regenerated parts: F-APPX-ZIP64, no *.appx member: F41, manifest not empty / block-map descriptor recognised: F7a) is proved with the same codec: appx_sign_then_verify_zip (Props/C01_AppxFull.lean, on the ZIP round trip C17.read_write_directory_own_output)']
 IMPL_PARALLEL = 16
 install(globals(), "C01", ["pe", "e2e", "cab", "ps", "jar", "apk", "xsig", "apkv", "deb", "appx", "pgp", "macho", "magic", "vsix", "ident", "xap", "msisign", "dmg", "cosign", "appxv", "xar", "csvfy"])
 
